@@ -4,7 +4,15 @@
 // (string-buffer outputs) to observe that usage/help is printed and no test runs.
 // Scenario: <time ms> <n> <arg bytes>*n  [annotation, ignored here]
 // Observation:  :rej <help> <tests run> <printed 0 nothing|1 usage|2 help|3 other>
-//             | :ok v vv c p lg ln ll ri b f rethrow shuffling <seed> <repeat> <out 0|1|2> <pkg> <ng> (pat strict invert)* <nn> (..)* <sel>*14
+//             | :ok v vv c p lg ln ll ri b f rethrow shuffling <seed> <repeat> <out 0|1|2> <pkg> <ng> (pat strict invert)* <nn> (..)* <sel>*14 <applied>
+// An accepted vector is then handed to the real CommandLineTestRunner (runAllTestsMain) over a registry of 18 recording probe tests
+// (4 of them IGNORE_TESTs), with recording outputs in place of the console / JUnit / TeamCity ones and a logging srand:
+//   <applied> ::= :skip                                   (repeat count above REP_CAP = 6: not run)
+//               | :app <nouts> (kind pkg level colour)*   leaf outputs in creation order, final verbosity level and colour
+//                      <text>                              what was printed, when no repetition ran (the listings)
+//                      <nreps> (level colour <n> seed* <n> started* <n> ran* <n> sep*)*
+//   per repetition: level/colour of the first output when it starts, srand arguments since the previous one, ids passed to
+//   currentTestStarted, ids whose body ran, started ids on which setRunInSeperateProcess had been called (nothing is forked).
 #include <stdexcept>
 #include "hlib.h"
 static char* exactCopy(const std::string& s) { char* p = (char*)malloc(s.size() + 1); memcpy(p, s.data(), s.size()); p[s.size()] = 0; return p; }
@@ -51,6 +59,108 @@ public:
     TestOutput* createTeamCityOutput() CPPUTEST_OVERRIDE { return new StringBufferTestOutput; }
 };
 
+// ---------------------------------------------------------------- the runner over recording probes
+static const int NRP = 18, REP_CAP = 6;
+static const struct { const char* g; const char* n; bool ign; } RPROBES[NRP] = {
+    {"grp", "name", false}, {"grp", "name2", false}, {"grp", "ign", true}, {"grp2", "name", false}, {"Group", "Test", false},
+    {"Group", "TestIgn", true}, {"a", "b", false}, {"ab", "ba", false}, {"x", "y", false}, {"x", "z", true},
+    {"grp", "other", false}, {"other", "name", false}, {"g1", "t1", false}, {"G", "T", false}, {"ig", "name", true},
+    {"mygrp", "myname", false}, {"aaab", "xababac", false}, {"Looop", "TestTestTests", false} };
+struct OutRec { int kind; std::string pkg; int level; bool colour; };
+struct Rep { int level; bool colour; std::vector<unsigned long long> seeds; std::vector<int> started, ran, sep; };
+static std::vector<OutRec> gOuts; static std::vector<Rep> gReps; static std::string gText; static std::vector<unsigned long long> gSeedLog;
+static bool gSepFlag[NRP];
+static void (*gRealSrand)(unsigned int);
+static void loggingSrand(unsigned int s) { gSeedLog.push_back(s); gRealSrand(s); }
+static Rep& currentRep() { if (gReps.empty()) gReps.push_back(Rep()); return gReps.back(); }
+
+class RecTest : public Utest { public: int id; explicit RecTest(int i) : id(i) {} void testBody() CPPUTEST_OVERRIDE { currentRep().ran.push_back(id); } };
+class ProbeShell : public UtestShell
+{
+public:
+    int id;
+    ProbeShell(int i) : UtestShell(RPROBES[i].g, RPROBES[i].n, "probe.cpp", 1), id(i) {}
+    Utest* createTest() CPPUTEST_OVERRIDE { return new RecTest(id); }
+    void setRunInSeperateProcess() CPPUTEST_OVERRIDE { gSepFlag[id] = true; }      // recorded, not done: nothing forks
+};
+class IgnoredProbeShell : public IgnoredUtestShell
+{
+public:
+    int id;
+    IgnoredProbeShell(int i) : IgnoredUtestShell(RPROBES[i].g, RPROBES[i].n, "probe.cpp", 1), id(i) {}
+    Utest* createTest() CPPUTEST_OVERRIDE { return new RecTest(id); }
+    void setRunInSeperateProcess() CPPUTEST_OVERRIDE { gSepFlag[id] = true; }
+};
+static int probeId(const UtestShell& t)
+{
+    if (const ProbeShell* p = dynamic_cast<const ProbeShell*>(&t)) return p->id;
+    if (const IgnoredProbeShell* q = dynamic_cast<const IgnoredProbeShell*>(&t)) return q->id;
+    return 0xff;
+}
+class Recorder : public TestOutput
+{
+public:
+    size_t idx;
+    Recorder(int kind, const char* pkg) : idx(gOuts.size()) { OutRec r; r.kind = kind; r.pkg = pkg; r.level = 0; r.colour = false; gOuts.push_back(r); }
+    void verbose(VerbosityLevel level) CPPUTEST_OVERRIDE { gOuts[idx].level = (int)level; }
+    void color() CPPUTEST_OVERRIDE { gOuts[idx].colour = true; }
+    void printTestsStarted() CPPUTEST_OVERRIDE
+    {
+        if (idx) return;
+        Rep r; r.level = gOuts[0].level; r.colour = gOuts[0].colour; r.seeds.swap(gSeedLog); gReps.push_back(r);
+    }
+    void printTestsEnded(const TestResult&) CPPUTEST_OVERRIDE { if (!idx) memset(gSepFlag, 0, sizeof gSepFlag); }
+    void printCurrentTestStarted(const UtestShell& t) CPPUTEST_OVERRIDE
+    {
+        if (idx) return;
+        int id = probeId(t); currentRep().started.push_back(id);
+        if (id < NRP && gSepFlag[id]) currentRep().sep.push_back(id);
+    }
+    void printCurrentTestEnded(const TestResult&) CPPUTEST_OVERRIDE {}
+    void printCurrentGroupStarted(const UtestShell&) CPPUTEST_OVERRIDE {}
+    void printCurrentGroupEnded(const TestResult&) CPPUTEST_OVERRIDE {}
+    void printTestRun(size_t, size_t) CPPUTEST_OVERRIDE {}
+    void printBuffer(const char* s) CPPUTEST_OVERRIDE { if (!idx) gText += s; }
+    void flush() CPPUTEST_OVERRIDE {}
+};
+class RecordingRunner : public CommandLineTestRunner
+{
+public:
+    RecordingRunner(int ac, const char* const* av, TestRegistry* r) : CommandLineTestRunner(ac, av, r) {}
+    TestOutput* createConsoleOutput() CPPUTEST_OVERRIDE { return new Recorder(0, ""); }
+    TestOutput* createJUnitOutput(const SimpleString& pkg) CPPUTEST_OVERRIDE { return new Recorder(1, pkg.asCharString()); }
+    TestOutput* createTeamCityOutput() CPPUTEST_OVERRIDE { return new Recorder(2, ""); }
+};
+static void ids(Out& o, const std::vector<int>& v) { o << hx(v.size()); for (size_t k = 0; k < v.size(); k++) o << hx((unsigned)v[k]); }
+static void runThroughRunner(Out& o, int ac, const char* const* av)
+{
+    gOuts.clear(); gReps.clear(); gText.clear(); gSeedLog.clear(); memset(gSepFlag, 0, sizeof gSepFlag);
+    TestRegistry reg; OkPlugin plugin;
+    std::vector<UtestShell*> shells;
+    for (int i = 0; i < NRP; i++) shells.push_back(RPROBES[i].ign ? (UtestShell*)new IgnoredProbeShell(i) : (UtestShell*)new ProbeShell(i));
+    for (int i = NRP - 1; i >= 0; i--) reg.addTest(shells[(size_t)i]);          // addTest prepends: the normal order is 0, 1, 2, ...
+    reg.installPlugin(&plugin);
+    gRealSrand = PlatformSpecificSrand; PlatformSpecificSrand = loggingSrand;
+    {
+        RecordingRunner runner(ac, av, &reg);
+        runner.runAllTestsMain();
+    }
+    PlatformSpecificSrand = gRealSrand;
+    UtestShell::restoreDefaultTestTerminator();      // -f is sticky in the library
+    UtestShell::setRethrowExceptions(true);
+    for (size_t i = 0; i < shells.size(); i++) delete shells[i];
+    o << ":app" << hx(gOuts.size());
+    for (size_t k = 0; k < gOuts.size(); k++) o << hx((unsigned)gOuts[k].kind) << hstr(gOuts[k].pkg.c_str()) << hx((unsigned)gOuts[k].level) << (gOuts[k].colour ? "1" : "0");
+    o << (gReps.empty() ? hbytes(gText.data(), gText.size()) : std::string("$"));
+    o << hx(gReps.size());
+    for (size_t k = 0; k < gReps.size(); k++) {
+        const Rep& r = gReps[k];
+        o << hx((unsigned)r.level) << (r.colour ? "1" : "0") << hx(r.seeds.size());
+        for (size_t j = 0; j < r.seeds.size(); j++) o << hx(r.seeds[j]);
+        ids(o, r.started); ids(o, r.ran); ids(o, r.sep);
+    }
+}
+
 static const char* PROBES[14][2] = { {"grp", "name"}, {"grp", "name2"}, {"grp2", "name"}, {"Group", "Test"}, {"a", "b"}, {"ab", "ba"},
     {"x", "y"}, {"grp", "other"}, {"other", "name"}, {"g1", "t1"}, {"G", "T"}, {"mygrp", "myname"},
     {"aaab", "xababac"}, {"Looop", "TestTestTests"} };   // self-overlapping patterns: a match that starts inside a failed partial match
@@ -92,6 +202,8 @@ int main()
                     UtestShell probe(PROBES[p][0], PROBES[p][1], "probe.cpp", 1);
                     o << b01(probe.shouldRun(args.getGroupFilters(), args.getNameFilters()));
                 }
+                if (args.getRepeatCount() <= (size_t)REP_CAP) runThroughRunner(o, (int)n, av);
+                else o << ":skip";
             }
             else {
                 bool help = args.needHelp();
